@@ -538,6 +538,42 @@ pub fn run(ctx: &Ctx) {
             judge_paths(&[p], &what, json!({"what": what}), loc);
         }).chunk(1));
     }
+    // many complete elements: loading time must stay proportionate (a load that re-reads the file or
+    // re-scans a table per element takes minutes where a healthy one takes a fraction of a second)
+    {
+        let kinds: Vec<(&str, &str, String)> = vec![
+            ("PDUs with an empty DESC", "fx:PDUS", "<fx:PDU ID=\"Q#\"><ho:SHORT-NAME>q#</ho:SHORT-NAME><ho:DESC></ho:DESC><fx:BYTE-LENGTH>0</fx:BYTE-LENGTH></fx:PDU>".into()),
+            ("PDUs with a DESC and a signal", "fx:PDUS", "<fx:PDU ID=\"Q#\"><ho:SHORT-NAME>q#</ho:SHORT-NAME><ho:DESC>text #</ho:DESC><fx:BYTE-LENGTH>1</fx:BYTE-LENGTH><fx:SIGNAL-INSTANCES><fx:SIGNAL-INSTANCE ID=\"QI#\"><fx:SEQUENCE-NUMBER>0</fx:SEQUENCE-NUMBER><fx:SIGNAL-REF ID-REF=\"S_UINT8\"/></fx:SIGNAL-INSTANCE></fx:SIGNAL-INSTANCES></fx:PDU>".into()),
+            ("PDUs with an empty-tag DESC and no BYTE-LENGTH text", "fx:PDUS", "<fx:PDU ID=\"Q#\"><ho:SHORT-NAME>q#</ho:SHORT-NAME><ho:DESC/><fx:BYTE-LENGTH>2</fx:BYTE-LENGTH></fx:PDU>".into()),
+            ("FRAMEs with a manufacturer extension", "fx:FRAMES", "<fx:FRAME ID=\"ID_9#\"><ho:SHORT-NAME>f#</ho:SHORT-NAME><fx:BYTE-LENGTH>4</fx:BYTE-LENGTH><fx:PDU-INSTANCES><fx:PDU-INSTANCE ID=\"FI#\"><fx:PDU-REF ID-REF=\"P1\"/><fx:SEQUENCE-NUMBER>0</fx:SEQUENCE-NUMBER></fx:PDU-INSTANCE></fx:PDU-INSTANCES><fx:MANUFACTURER-EXTENSION><MESSAGE_TYPE>DLT_TYPE_LOG</MESSAGE_TYPE><MESSAGE_INFO>DLT_LOG_INFO</MESSAGE_INFO><APPLICATION_ID>A#</APPLICATION_ID><CONTEXT_ID>C#</CONTEXT_ID></fx:MANUFACTURER-EXTENSION></fx:FRAME>".into()),
+            ("SIGNALs", "fx:SIGNALS", "<fx:SIGNAL ID=\"SG#\"><ho:SHORT-NAME>sg#</ho:SHORT-NAME><fx:CODING-REF ID-REF=\"COD_A\"/></fx:SIGNAL>".into()),
+            ("CODINGs", "fx:CODINGS", "<fx:CODING ID=\"CD#\"><ho:SHORT-NAME>cd#</ho:SHORT-NAME><ho:CODED-TYPE ho:BASE-DATA-TYPE=\"A_UINT8\" CATEGORY=\"STANDARD-LENGTH-TYPE\"/></fx:CODING>".into()),
+        ];
+        let counts: Vec<usize> = ctx.tier.pick(vec![20_000usize], vec![20_000usize, 100_000]);
+        let base = docs.iter().find(|d| d.name == "generated/no indentation").map(|d| d.doc.clone()).unwrap_or_default();
+        let sp = Space::new(&[kinds.len(), counts.len()]);
+        let s2 = sp.clone();
+        let (kinds, counts, base) = (&kinds, &counts, &base);
+        ctx.run_family(Family::new("c12.many_elements", sp.size(), format!("the generated document with N in {:?} further complete elements of one kind (PDUs with an empty / empty-tag / text DESC, FRAMEs with a manufacturer extension, SIGNALs, CODINGs; distinct ids) in their section: the load returns within the deadline (healthy: well under a second)", counts), move |i, loc| {
+            let c = s2.coords(i);
+            let (what, section, template) = &kinds[c[0]];
+            let n = counts[c[1]];
+            let close = format!("</{}>", section);
+            let at = base.windows(close.len()).position(|w| w == close.as_bytes()).unwrap_or(base.len());
+            let mut d = Vec::with_capacity(base.len() + n * (template.len() + 8));
+            d.extend_from_slice(&base[..at]);
+            for k in 0..n {
+                d.extend_from_slice(template.replace('#', &k.to_string()).as_bytes());
+            }
+            d.extend_from_slice(&base[at..]);
+            let dir = thread_dir();
+            let p = format!("{}/many.xml", dir);
+            std::fs::write(&p, &d).expect("write");
+            let what = format!("generated document with {} further {} ({} bytes)", n, what, d.len());
+            loc.state(i + 11_000_000, true);
+            judge_paths(&[p], &what, json!({"what": what}), loc);
+        }).chunk(1));
+    }
     // misplaced complete elements x truncation: a COMPLETE element of each kind inserted after every
     // start tag and before every end tag of the default document (a PDU inside a FRAME, a FRAME inside
     // a PDU / an instance list / a manufacturer extension, ...), then the file cut at every tag
